@@ -106,3 +106,32 @@ def nonblocking_acquire(call):
         if k.arg == "blocking":
             return isinstance(k.value, ast.Constant) and k.value.value in (False, 0)
     return False
+
+
+def share(ctx, rep, modname, take, as_rule, floor=None):
+    """Re-report obligations of another property's rule module under `as_rule` (the clause is a necessary
+    condition of both properties). The other module runs once per analysis context (cached)."""
+    import importlib
+    from ..report import Report
+    cache = getattr(ctx, "_subreports", None)
+    if cache is None:
+        cache = ctx._subreports = {}
+    if modname not in cache:
+        sub = Report(modname.upper(), rep.tier)
+        cache[modname] = sub          # registered first: cyclic sharing sees the partial report
+        mod = importlib.import_module("sa.rules." + modname)
+        try:
+            mod.run(ctx, sub)
+        except AnalysisError as e:
+            sub.infos.append("analysis of %s incomplete: %s" % (modname, e))
+    sub = cache[modname]
+    n = 0
+    for o in list(sub.obs):
+        if take(o):
+            n += 1
+            rep.ob(as_rule, "[%s] %s" % (o.rule, o.key), o.ok, o.msg, o.loc, o.witness, o.nontrivial, o.kind)
+    for fn in sub.functions:
+        rep.functions.add(fn)
+    if floor is not None:
+        rep.floor(as_rule, "obligations shared from %s" % modname.upper(), n, floor)
+    return n
